@@ -32,6 +32,7 @@ DEFAULT_CFG = {
     "pub_ctx": True,  # publishes may copy another context variable
     "items_conc": True,  # with-items tasks may have a concurrency limit
     "retry_expr": False,  # retry count / delay may be expressions over vars rc / rd
+    "name_mix": False,  # task names may sort before the engine commands' names
     "dict_vals": False,  # the variable `z` holds a dict and publishes to it are dicts (the engine deep-merges them)
     "bad_vars": 0.0,  # probability of a workflow variable whose expression fails when the conductor initialises
 }
@@ -72,7 +73,9 @@ def wf_ir(draw, c=None):
     mode = draw(st.sampled_from([lang.YAQL, lang.YAQL, lang.JINJA, "mixed"]))
     lp = _langpick(mode)
     n = draw(st.integers(c["min_tasks"], c["max_tasks"]))
-    names = ["t%d" % i for i in range(n)]
+    # (task names that sort before / after the names of the engine commands: `e3` < `fail` < `t3`)
+    prefix = draw(st.sampled_from(["t", "t", "e"])) if c["name_mix"] else "t"
+    names = ["%s%d" % (prefix, i) for i in range(n)]
     tasks = {}
     site = [0]
 
@@ -157,7 +160,8 @@ def wf_ir(draw, c=None):
                     t["with"]["concurrency"] = conc
         if c["retry"] and draw(st.floats(0, 1)) < c["retry"]:
             t["retry"] = {"count": draw(st.integers(0, 2))}
-            w = draw(st.sampled_from([None, None, ["failed"], ["res_ne", "code", 200], ["completed"]]))
+            # (incl. conditions that are false for some failed attempts: failures carry code 500 or 404)
+            w = draw(st.sampled_from([None, None, ["failed"], ["res_ne", "code", 200], ["completed"], ["succeeded"], ["res_eq", "code", 404], ["and", ["failed"], ["res_eq", "code", 404]]]))
             if w:
                 t["retry"]["when"] = E(w, lp(draw))
             if draw(st.booleans()):
@@ -321,7 +325,7 @@ def fork_join_ir(draw, items=False, retry=False, split=None):
                 early = [[draw(st.sampled_from(POOL)), "early@%s" % nm]] if draw(st.booleans()) else []
                 t["next"].append({"when": E(["true"], lng), "do": [chain[i + 1]], "publish": early})
             else:
-                mode = draw(st.sampled_from(["always", "always", "succeeded", "succeeded", "failed", "completed", "code", "never", "twice", "handler"]))
+                mode = draw(st.sampled_from(["always", "always", "succeeded", "succeeded", "failed", "completed", "code", "never", "twice", "either", "handler"]))
                 pub = [[draw(st.sampled_from(POOL)), "pub@%s" % nm]] if draw(st.booleans()) else []
                 if mode == "always":
                     t["next"].append({"when": E(["true"], lng), "do": [J], "publish": pub})
@@ -331,6 +335,9 @@ def fork_join_ir(draw, items=False, retry=False, split=None):
                     t["next"].append({"when": E(["res_eq", "code", 200], lng), "do": [J], "publish": pub})
                 elif mode == "never":
                     t["next"].append({"when": E(["res_eq", "code", 999], lng), "do": [J], "publish": pub})
+                elif mode == "either":  # two transitions into the join, exactly one of them is taken
+                    t["next"].append({"when": E(["succeeded"], lng), "do": [J], "publish": pub})
+                    t["next"].append({"when": E(["failed"], lng), "do": [J], "publish": []})
                 elif mode == "twice":
                     t["next"].append({"when": E(["succeeded"], lng), "do": [J], "publish": pub})
                     t["next"].append({"when": E(["completed"], lng), "do": [J], "publish": []})
